@@ -5,15 +5,27 @@ from pyvc.interp import Obligation
 from pyvc.libspec.core import LIB as _CORE
 from pyvc.libspec import conc as _conc, cli as _cli
 from pyvc.contracts import *
-from contracts import specns, labels
+from contracts import specns, labels, queryglue, calc_files
+from contracts.queryglue import *
 from contracts.labels import *
 
 LIB = dict(_CORE)
+LIB['rectype:gambit.query.QueryInput'] = TQInput
+LIB['class:SequenceFile'] = 'gambit.seq.SequenceFile'
 SPECNS = specns.NS
 
 
 def targets(tier):
-	return [(CC + 'get_file_id',)]
+	return [(CC + 'get_file_id',),
+	        (QR + 'query', 'inputs', {'inputs': SeqOf(TSpec(TQInput))}),
+	        (QR + 'query', 'noinputs', {'inputs': Const(None)}),
+	        (QR + 'query', 'fileinputs', {'inputs': SeqOf(File)}),
+	        (QR + 'query', 'strinputs', {'inputs': SeqOf(Str)}),
+	        (QR + 'query_parse', 'labels', {'file_labels': SeqOf(Str)}),
+	        (QR + 'query_parse', 'nolabels', {'file_labels': Const(None)}),
+	        (CC + 'get_sequence_files', 'explicit', {'explicit': SeqOf(Str), 'listfile': Const(None), 'listfile_dir': Str}),
+	        (CC + 'get_sequence_files', 'listfile', {'explicit': Const(None), 'listfile': Obj('ListFile'), 'listfile_dir': Str}),
+	        ('gambit.seq.SequenceFile.from_paths',)]
 
 
 TRUSTED = []
@@ -22,3 +34,33 @@ ASSUMPTIONS = []
 
 def register(reg):
 	labels.register(reg)
+	labels.register_files(reg)
+	calc_files.register(reg)
+	queryglue.register(reg)
+	queryglue.register_parse(reg)
+
+
+TRUSTED = [
+	'click parsing; os.path.basename (POSIX); pathlib: str(Path(s)) and Path(d) / s as uninterpreted normalisation/joining functions; text-file iteration (read_lines) and str.strip',
+	'C05 in row form: row i of jaccarddist_matrix is a function of queries[i], the reference signatures and the selected indices only (independent of chunk size, batch, threads); C03/C09/C10: get_result_item is a function of (db, params, row, input); C13: calc_file_signatures returns the single-file results in file order',
+	'gambit.util.progress helpers wrap iterables in order and do not touch values; attrs-generated constructors; zip(strict=True)',
+	'exporters write one row/item per result item in order (C11); query_cmd passes ids/files from get_sequence_files to query_parse (checked as part of C14\'s query_cmd obligations and by the bounded CLI run)',
+]
+ASSUMPTIONS = TRUSTED + ['the end-to-end clause (same row alone or in any batch/channel/compression/cores/progress) is additionally exercised by a BOUNDED run of the real CLI; compression handling is C06']
+
+
+def replay(run, result, model, run_oracle):
+	from pyvc import replay as RP
+	ob = result.failed_instance
+	inp = RP.entry_inputs(model, ob)
+	if inp and isinstance(inp.get('path'), str) and 'get_file_id' in result.name:
+		case = {'kind': 'label', 'path': inp['path']}
+		r = run_oracle('C08', run.repo_root, {'op': 'case', 'case': case})
+		if r.get('ok') is False:
+			return {'reproduced': True, 'case': case, 'expected': r.get('expected'), 'actual': r.get('actual'), 'how': 'solver model (path string) replayed on the real get_file_id'}
+		return {'reproduced': False, 'tried': [{'case': case, 'result': r}]}
+	return {'reproduced': False}
+
+
+def bounded(run, run_oracle):
+	return run_oracle('C08', run.repo_root, {'op': 'bounded', 'tier': run.tier, 'seed': run.seed})
